@@ -21,6 +21,7 @@ type LoopContract struct {
 	Decreases  *Clause
 	Uses       []Clause // lemma instances assumed at the back edge (end of body); hdr(e) refers to header values
 	ExitUses   []Clause // lemma instances assumed at the loop header (available in the body and after the loop)
+	Asserts    []Clause // cut formulas: proved at every back edge (end of body), then assumed, before the invariants are checked
 }
 
 type FuncContract struct {
@@ -34,6 +35,7 @@ type FuncContract struct {
 	PanicsIff *Clause // nil: must not panic
 	PanicKind string  // "tla" (default in package tla) | "any"
 	MayPanic  bool    // callbacks may panic: panics are not constrained ("may panic")
+	NoPanicAt []string // in a maypanic function: callees (or "explicit") whose panic must nevertheless be impossible
 	Loops     map[int]*LoopContract
 	Trusted   bool // contract is assumed, body not verified
 	Props     []string
@@ -104,9 +106,9 @@ type GlobalFact struct {
 }
 
 var clauseKeywords = map[string]bool{
-	"func": true, "requires": true, "ensures": true, "modifies": true, "preserves": true, "refinedby": true, "monitor": true, "protects": true, "track": true, "before": true, "panics": true, "maypanic": true,
+	"func": true, "requires": true, "ensures": true, "modifies": true, "preserves": true, "refinedby": true, "monitor": true, "protects": true, "track": true, "before": true, "panics": true, "maypanic": true, "nopanic": true,
 	"loop": true, "invariant": true, "decreases": true, "spec": true, "lemma": true, "induct": true,
-	"smt": true, "smtlate": true, "closed": true, "neversent": true, "immutableheap": true, "fieldinv": true, "inline": true, "sort": true, "global": true, "package": true, "ghost": true, "type": true, "trusted": true, "props": true, "use": true, "hdruse": true, "axiom": true, "pattern": true, "opaque": true,
+	"smt": true, "smtlate": true, "closed": true, "neversent": true, "immutableheap": true, "fieldinv": true, "inline": true, "sort": true, "global": true, "package": true, "ghost": true, "type": true, "trusted": true, "props": true, "use": true, "hdruse": true, "assert": true, "axiom": true, "pattern": true, "opaque": true,
 }
 
 var reFuncHdr = regexp.MustCompile(`^func\s+(.+)$`)
@@ -406,6 +408,11 @@ func (cs *Contracts) loadContractFile(path string, pkg string, goFile bool) erro
 			}
 			curF.PanicsIff = &c
 			curF.PanicKind = kind
+		case "nopanic":
+			if curF == nil {
+				return fmt.Errorf("%s:%d: nopanic outside func", path, l.no)
+			}
+			curF.NoPanicAt = append(curF.NoPanicAt, strings.Fields(rest)...)
 		case "maypanic":
 			if curF == nil {
 				return fmt.Errorf("%s:%d: maypanic outside func", path, l.no)
@@ -479,6 +486,15 @@ func (cs *Contracts) loadContractFile(path string, pkg string, goFile bool) erro
 			curL = &Lemma{Name: m[2], Params: bs, Pkg: pkg, File: path, Line: l.no, Axiom: m[1] == "axiom"}
 			cs.Lemmas = append(cs.Lemmas, curL)
 			curF, curLoop = nil, nil
+		case "assert":
+			c, err := mk(rest, l.no)
+			if err != nil {
+				return err
+			}
+			if curLoop == nil {
+				return fmt.Errorf("%s:%d: assert outside loop", path, l.no)
+			}
+			curLoop.Asserts = append(curLoop.Asserts, c)
 		case "hdruse":
 			c, err := mk(rest, l.no)
 			if err != nil {
